@@ -40,7 +40,8 @@ def plan(tier, seed):
 def minimums(tier):
     return {"strace.runs": 150, "strace.injected_runs": 100, "strace.kill_runs": 40, "strace.error_runs": 60,
             "trace.unlink_checked": 20, "poststate.checked": 150, "twin.runs": 1500, "twin.fault_runs": 1000,
-            "twin.remove_events": 200, "must_not_delete.cases": 20, "nostdout.runs": 15}
+            "twin.remove_events": 200, "must_not_delete.cases": 20, "nostdout.runs": 15,
+            "twin.exact_block_multiple_documents": 8}
 
 
 # (mode, pel variant, stdout kind)
@@ -63,6 +64,22 @@ def make_pel(rng, u, variant):
     if variant == "big":
         for _ in range(4):
             pel.sections.append(pm.sec_generic(rng, u, b"EI", pm.gen_payload(rng, u, 4096)))
+    if variant.startswith("exact"):
+        # a document whose text is EXACTLY 64 KiB / 128 KiB long (whole output blocks): JSON user data with a string value
+        # sized to the character
+        target = {"exact64k": 0x10000, "exact128k": 0x20000}[variant]
+        def build(ns):
+            secs = [pm.sec_ud(rng, u, "O", 0x2000, 1, 1, gen.nul_pad(json.dumps({"K%d" % k: "a" * n}).encode()), expect_mode="json")
+                    for k, n in enumerate(ns)]
+            return pm.Pel("O", pel.ph, pel.uh, secs)
+        ns = [60000] if target == 0x10000 else [50000, 50000, 20000]
+        for _ in range(6):
+            cand = build(ns)
+            ln = len(harness.decode(cand.encode(), harness.make_config()).text or "")
+            if ln == target:
+                break
+            ns[-1] = max(1, min(65000, ns[-1] + target - ln))
+        pel = cand
     data = pel.encode()
     if variant == "undecodable":
         data = data[:len(data) - rng.randrange(1, 20)]
@@ -70,7 +87,9 @@ def make_pel(rng, u, variant):
         data = b"XX" + data[2:]
     o = harness.decode(data, harness.make_config())
     exp = o.text if o.kind == "doc" else None
-    if variant in ("small", "big"):
+    if variant.startswith("exact"):
+        assert exp and len(exp) in (0x10000, 0x20000), (variant, len(exp or ""))
+    elif variant in ("small", "big"):
         assert exp, (variant, o.exc)
     else:
         assert exp is None or variant == "filtered" and not exp, variant
@@ -453,6 +472,9 @@ def run_twin(spec, ctx, rng, u):
 
     for i in range(spec["n"]):
         variant = rng.choice(["small", "small", "small", "big", "undecodable", "filtered", "badph"])
+        if i % 30 == 7:
+            variant = rng.choice(["exact64k", "exact128k"])
+            ctx.count("twin.exact_block_multiple_documents")
         pel, data, exp = make_pel(rng, u, variant)
         d = os.path.join(root, "tw%d" % i)
         mode = rng.choice(["json", "json-o", "file", "filehex", "file-buffered", "filehex-buffered"])
